@@ -10,6 +10,18 @@ THR = 10 ** (-6)
 # then exercised, and the usual oracles judge the result — the log level must not change behaviour
 DEBUG_EVERY = 3
 _calls = {"n": 0}
+FORCE_DEBUG = {"on": False}
+
+
+class forced_debug:
+    """with impl.forced_debug(): ... — every runner call inside runs at DEBUG log level"""
+
+    def __enter__(self):
+        self.old = FORCE_DEBUG["on"]
+        FORCE_DEBUG["on"] = True
+
+    def __exit__(self, *a):
+        FORCE_DEBUG["on"] = self.old
 
 
 import contextlib as _ctxlib
@@ -21,13 +33,47 @@ def maybe_debug():
     _calls["n"] += 1
     root = _logging.getLogger()
     old = root.level
-    dbg = DEBUG_EVERY and _calls["n"] % DEBUG_EVERY == 0
+    dbg = FORCE_DEBUG["on"] or (DEBUG_EVERY and _calls["n"] % DEBUG_EVERY == 0)
     if dbg:
         root.setLevel(_logging.DEBUG)
     try:
         yield dbg
     finally:
         root.setLevel(old)
+
+
+@_ctxlib.contextmanager
+def coarse_clock():
+    """the wall clock does not advance inside the block (coarse timers, virtual clocks): the elapsed time a
+    batch run measures is then exactly 0.0; results must not depend on it"""
+    import time as _time
+    real = _time.time
+    frozen = real()
+    _time.time = lambda: frozen
+    try:
+        yield
+    finally:
+        _time.time = real
+
+
+@_ctxlib.contextmanager
+def racing_clock(step=1.0):
+    """every reading of a clock is `step` seconds later than the previous one (a machine that is that much
+    slower): what a solve returns must not depend on how long it took"""
+    import time as _time
+    saved = {n: getattr(_time, n) for n in ("time", "monotonic", "perf_counter", "process_time")}
+    state = {"t": saved["time"]()}
+
+    def tick():
+        state["t"] += step
+        return state["t"]
+    for n in saved:
+        setattr(_time, n, tick)
+    try:
+        yield
+    finally:
+        for n, f in saved.items():
+            setattr(_time, n, f)
 
 
 def err_kind(e):
